@@ -16,5 +16,6 @@ rf6 C06
 rf7 C12
 rf8 C10
 rf9 C10
+rf10 C13
 LIST
 exit $rc
